@@ -99,11 +99,11 @@ type exec struct {
 
 	unknownViol int
 	opaqueQ     int
-	violations []Violation
-	witnesses  []Witness
-	undecided  []string // reasons
-	wantWit    int
-	knownIDs   map[string]bool
+	violations  []Violation
+	witnesses   []Witness
+	undecided   []string // reasons
+	wantWit     int
+	knownIDs    map[string]bool
 }
 
 type obsItem struct {
